@@ -28,8 +28,13 @@ inductive PStep (s : PState) : PState → Prop where
         toMon := if 0 < s.maxq then (s.toMon.setWs .notEmpty ⟨s.ne.W, S'⟩).unlock.notifs [⟨false, .notFull⟩]
                  else (s.toMon.setWs .notEmpty ⟨s.ne.W, S'⟩).unlock,
         q := q', pc := upd s.pc t (.wExec x), log := s.log ++ [.took t x] }
-  | exec (t : Nat) (x : Task) (hpc : s.pc t = .wExec x) :
-      PStep s { s with pc := upd s.pc t .wTest, log := s.log ++ [.exec t x] }
+  | exec (t : Nat) (x : Task) (p : PPc) (g : Bool) (hpc : s.pc t = .wExec x)
+      (hp : p = .wTest ∨ (p = .wGate x ∧ s.kind x.2 = .waits)) :
+      PStep s { s with gate := g, pc := upd s.pc t p, log := s.log ++ [.exec t x] }
+  | pass (t : Nat) (x : Task) (hpc : s.pc t = .wGate x) (hg : s.gate = true) :
+      PStep s { s with pc := upd s.pc t .wTest, log := s.log ++ [.pass t x] }
+  | openGate (t : Nat) (rest : List POp) (hpc : s.pc t = .idle) (hp : s.prog t = .open :: rest) :
+      PStep s { s with gate := true, pc := upd s.pc t .idle, prog := upd s.prog t rest, log := s.log ++ [.openRet t] }
   | runInline (t id : Nat) (rest : List POp) (hpc : s.pc t = .idle) (hp : s.prog t = .run id :: rest) (hn : s.n = 0) :
       PStep s { s with pc := upd s.pc t .idle, prog := upd s.prog t rest, log := s.log ++ [.inl t id, .runRet t id] }
   | runPark (t id : Nat) (rest : List POp) (S' : List Nat) (hpc : s.pc t = .idle) (hp : s.prog t = .run id :: rest)
@@ -117,9 +122,17 @@ theorem pstep_sound {s s' : PState} {a : Act} (h : pstep s a = some s') : PStep 
       · cases h
     · -- wExec
       rename_i x hpc
-      simp only [PState.g_loop_g3, if_true] at h
+      simp only [PState.g_loop_g3, if_true, PState.startTask] at h
       cases h
-      exact .exec t x hpc
+      cases hk : s.kind x.2
+      · exact .exec t x .wTest s.gate hpc (Or.inl rfl)
+      · exact .exec t x (.wGate x) s.gate hpc (Or.inr ⟨rfl, hk⟩)
+      · exact .exec t x .wTest true hpc (Or.inl rfl)
+    · -- wGate
+      rename_i x hpc
+      split at h
+      · rename_i hg; cases h; exact .pass t x hpc hg
+      · cases h
     · cases h
     · -- idle
       rename_i hpc
@@ -155,6 +168,9 @@ theorem pstep_sound {s s' : PState} {a : Act} (h : pstep s a = some s') : PStep 
           cases h
           exact .stopFlag t _ hpc hp ho
         · cases h
+      · rename_i rest hp
+        cases h
+        exact .openGate t rest hpc hp
     · -- stopNotify
       rename_i hpc
       split at h
